@@ -10,6 +10,7 @@ import os
 import random
 
 from harness import alpha, compare, core, gamma, shims, tlc, util
+from harness import spell
 
 F1, F2 = '<<"a","b">>', '<<"a","c">>'
 INV = ["CombineRefines", "RefusedWritesNothing", "NoSharedWrites", "PoolOK", "Emit"]
@@ -117,10 +118,12 @@ def run_scenario(chk, sc, cfgseed, as_string=False, flavour="sched", workers=Non
         plan[l + 1] = sc["sched"][pos:pos + n]
         pos += n
     exc = None
+    t1, t2 = spell.of(p1, cfgseed)[0], spell.of(p2, cfgseed // 7)[0]        # the inputs as a user may type them (PathRes.tla)
+    before = (alpha.tree_digest(p1), alpha.tree_digest(p2))
     with shims.fs_audit() as audit:
         try:
             with shims.pool_shim(shims.Scheduler(plan=plan, workers=workers), flavour), core.quiet():
-                combine(PlotfileCooker(p1), PlotfileCooker(p2), pltout=out,
+                combine(PlotfileCooker(t1), PlotfileCooker(t2), pltout=out,
                         vars1=pyvars(sc["v1"], as_string), vars2=pyvars(sc["v2"], as_string))
         except Exception as e:
             exc = e
@@ -163,6 +166,14 @@ def run_scenario(chk, sc, cfgseed, as_string=False, flavour="sched", workers=Non
 
 
 def run(chk, replay):
+    _run(chk, replay)
+    if not replay:
+        # the working directory changes between runs on plotfiles typed under a relative name (PoolEnv.tla)
+        from harness import poolenv
+        poolenv.tool_phase(chk, "combine")
+
+
+def _run(chk, replay):
     chk.rule = ("behaviours of Combine.tla emitted by TLC: (layout of first) x (independent layout of second) x selections x "
                 "mesh relation (same / fewer boxes / shifted box / fewer levels) x completion order; signature = (relation, mode "
                 "chosen by the model, levels, mono/non-mono of each input, selection classes, finish class, argument form); "
